@@ -231,3 +231,46 @@ def c12(ctx):
     mcs = [dict(steps=n + 1, maxsend=1, maxh=1, srv="SrvQuick", send="SendOne", sm=True, cut=True)]
     ctx.notes["bounds"] = "cut after every prefix of every history of length <= %d (SM on/off); seeded variants: RST instead of FIN, chunked writes, cut at byte offsets inside the last element" % n
     session_check(ctx, gens, mcs, nvar=600 if q else 6000, nburst=100 if q else 1000, extra_args=["-offsets"])
+
+
+# ------------------------------------------------------------------ C08
+def sendpath_cfg(senders, per, fails, sm, emit=True):
+    return """SPECIFICATION Spec
+CONSTANTS
+  Senders = %s
+  PerSender = %d
+  FailAts = %s
+  SM = %s
+  Split = FALSE
+  Emit = %s
+INVARIANTS C08_Whole C08_WireIsShuffle C08_FailedWriteReported C10_AllPushedOnce %s
+CHECK_DEADLOCK FALSE
+""" % (senders, per, fails, "TRUE" if sm else "FALSE", "TRUE" if emit else "FALSE", "EmitInv" if emit else "")
+
+
+@check("C08")
+def c08(ctx):
+    def full():
+        q = ctx.tier == "quick"
+        scen = []
+        for sm in (True, False):
+            r = vlib.tlc_mc(ctx, "SendPath", "MC_SendPath.cfg", cfgtext=sendpath_cfg("{1, 2}", 2, "{0, 1, 2, 3}" if sm else "{0, 2}", sm))
+            scen += blines(r)
+        if not q:
+            r = vlib.tlc_mc(ctx, "SendPath", "MC_SendPath.cfg", cfgtext=sendpath_cfg("{1, 2, 3}", 2, "{0}", True))
+            scen += blines(r)
+        # interleavings of 3 senders x 2 sends, invariants only
+        vlib.tlc_mc(ctx, "SendPath", "MC_SendPath.cfg", cfgtext=sendpath_cfg("{1, 2, 3}", 2 if q else 3, "{0, 1, 4}", True, emit=False))
+        # non-vacuity: the split-write variant must violate C08_Whole
+        r = vlib.run_tlc(ctx, "SendPath", "MC_SendPath_split.cfg", workers=1, timeout=120)
+        if r["code"] != 12:
+            raise Infra("non-vacuity check failed: the split-write variant did not violate C08_Whole (exit %d)" % r["code"])
+        ctx.notes["non_vacuity"] = "MC_SendPath_split.cfg (two Write calls per send) violates C08_Whole, as it must"
+        ctx.exhaustive = True
+        ctx.notes["bounds"] = "all schedules of 2 senders x 2 sends (3 x 2 thorough) through the gate between serialisation/push and the transport write, x write fault at the k-th write, SM on/off, stream logger on/off; stress: up to 8 senders x 50 sends"
+        out, nev, _ = vlib.run_driver(ctx, "c08", scen=scen, args=["-stress", "60" if q else "600"], timeout=2400)
+        ctx.verdicts += vlib.tlc_trace(ctx, "TraceSendPath", "Trace_SendPath.cfg", out, nev, timeout=1800)
+    replay_or(ctx, "c08", "TraceSendPath", "Trace_SendPath.cfg", full)
+    ctx.assumptions += ["expected bytes are xml.Marshal of the harness's own copy of the stanza / the raw string; the server compares them with the exact bytes of each top-level element it received",
+                        "atomicity of a single transport Write call is the operating system's / crypto/tls's guarantee",
+                        "gates only order the senders; they are never judged"]
